@@ -163,10 +163,14 @@ Definition normalise (h : list Q) : list Q := map (fun x => qdiv x (vsum h)) h.
 (* X[:, i] -= X[:, i] . (P_i) with P_i = X[:, :i] pinv(X[:, :i]) the orthogonal projector on the span of the
    (already orthogonalised) preceding columns; for mutually orthogonal preceding columns c_j that projector
    is sum_j c_j c_j^T / (c_j . c_j), null columns contributing nothing (pinv contract). *)
-(* projections all use the ORIGINAL column x (the code computes the full projection of x at once) *)
+(* projections all use the ORIGINAL column x (the code computes the full projection of x at once).
+   pinv(A) discards singular values <= rcond * largest (numpy default rcond = 1e-15); for mutually orthogonal
+   columns the singular values are the column norms, so a column with |c|^2 <= 1e-30 * max|c_j|^2 is ignored. *)
+Definition pinv_rcond2 : Q := 1 # 1000000000000000000000000000000.
 Definition orth_col (done : list (list Q)) (x : list Q) : list Q :=
+  let mx := fold_left (fun m c => let cc := dot c c in if qlt m cc then cc else m) done 0 in
   fold_left (fun acc c => let cc := dot c c in
-                          if Qeq_bool cc 0 then acc else vadd acc (vscale (- (qdiv (dot x c) cc)) c)) done x.
+                          if Qle_bool cc (qmul mx pinv_rcond2) then acc else vadd acc (vscale (- (qdiv (dot x c) cc)) c)) done x.
 Definition orthogonalize (cols : list (list Q)) : list (list Q) :=
   fold_left (fun done x => done ++ [orth_col done x]) cols [].
 
